@@ -177,4 +177,117 @@ def zip3 : List Bool → List (Option Val) → List (Option Val) → List (Bool 
 
 def leKeys (opts : List Bool) (a b : Hit) : Bool := decide (cmpKeys (zip3 opts a.keys b.keys) ≤ 0)
 
+/-! ### internalRoute: the retry loop around one remote call (cluster/rpc.go)
+
+`for i := 0; i < c.cfg.RpcRetries; i++ { (sleep if i > 0); retryErr = nil; client, err := c.rpcClient(dest);
+ if err != nil { retryErr = …; continue }; call := client.Go(…); select { case <-call.Done: if call.Error != nil
+ { if call.Error == rpc.ErrShutdown { delete(c.rpcClients, dest); i--; continue }; return err }; return nil;
+ case <-timeout.C: retryErr = ErrTimeout } }; return retryErr`
+
+The environment (the peer, the network, time) is an explicit list of events, one per iteration of the
+loop; the theorems quantify over every such list, every number of retries and every initial state of
+the client cache.  Time is not modelled (back-off sleeps only delay). -/
+
+/-- `c.rpcClients[destination]`: nothing cached, a live client, or a client that has shut down
+(net/rpc: its connection is gone, `Go` answers `ErrShutdown` at once) and is still in the map -/
+inductive Cache | none | live | dead
+  deriving DecidableEq, Repr
+
+/-- fate of a request written to a live client -/
+inductive CallEv
+  /-- delivered to the server, the handler returned nil, the answer arrived -/
+  | ok
+  /-- delivered, the handler returned an error, the answer arrived -/
+  | remoteErr
+  /-- no answer within rpcTimeout (the server hangs, or never got the request) -/
+  | timeout
+  /-- the connection died before the answer (`io.ErrUnexpectedEOF`, a write error) -/
+  | broken
+  deriving DecidableEq, Repr
+
+/-- what the environment does during one iteration -/
+structure Ev where
+  /-- the client about to be used has lost its connection: it is shut down when `Go` is called -/
+  dies : Bool
+  /-- a fresh dial (TCP connect + CONNECT handshake) succeeds; consulted only when nothing is cached -/
+  dial : Bool
+  /-- consulted only when the request is written to a live client -/
+  call : CallEv
+  deriving DecidableEq, Repr
+
+/-- "failed to get client" / "failed to call" / ErrTimeout -/
+inductive RouteErr | dial | call | timeout
+  deriving DecidableEq, Repr
+
+inductive RouteRes
+  /-- the function returned (`none` = nil = success) -/
+  | ret (err : Option RouteErr)
+  /-- the event list ended before the loop did -/
+  | running
+  deriving DecidableEq, Repr
+
+structure RouteSt where
+  /-- the loop variable at the loop test (`i--; continue` is followed by the post statement `i++`) -/
+  i : Nat := 0
+  retryErr : Option RouteErr := none
+  cache : Cache := .none
+  /-- successful dials -/
+  dials : Nat := 0
+  /-- requests delivered and answered: handler returned nil / an error -/
+  answeredOk : Nat := 0
+  answeredErr : Nat := 0
+  /-- requests written whose answer never came (time-out, broken connection) -/
+  lost : Nat := 0
+  deriving DecidableEq, Repr
+
+structure RouteOut where
+  res : RouteRes
+  st : RouteSt
+  deriving DecidableEq, Repr
+
+/-- one iteration of the loop: go round again with a new state, or return -/
+inductive RouteStep
+  | cont (st : RouteSt)
+  | done (err : Option RouteErr) (st : RouteSt)
+  deriving DecidableEq, Repr
+
+/-- the loop body (entered with `i < retries`) -/
+def routeIter (ev : Ev) (st : RouteSt) : RouteStep :=
+  -- retryErr = nil; client, err := c.rpcClient(destination)
+  match (match st.cache with
+    | .none => if ev.dial then some (Cache.live, st.dials + 1) else none
+    | c => some (c, st.dials)) with
+  | none =>
+    -- retryErr = "failed to get client"; continue
+    .cont { st with i := st.i + 1, retryErr := some .dial }
+  | some (cl, dials) =>
+    if ev.dies || cl == .dead then
+      -- rpcCall.Error == rpc.ErrShutdown: delete(c.rpcClients, destination); i--; continue
+      .cont { st with retryErr := none, cache := .none, dials := dials }
+    else match ev.call with
+      | .ok => .done none { st with retryErr := none, cache := .live, dials := dials, answeredOk := st.answeredOk + 1 }
+      | .remoteErr =>
+        -- the msgpack codec cannot skip the body of an error response (`Decode(nil)` fails), so the
+        -- client's reader stops: the client is shut down after a remote error
+        .done (some .call) { st with retryErr := none, cache := .dead, dials := dials, answeredErr := st.answeredErr + 1 }
+      | .broken => .done (some .call) { st with retryErr := none, cache := .dead, dials := dials, lost := st.lost + 1 }
+      | .timeout =>
+        -- retryErr = ErrTimeout (the client stays cached)
+        .cont { st with i := st.i + 1, retryErr := some .timeout, cache := .live, dials := dials, lost := st.lost + 1 }
+
+/-- `ClusterNode.internalRoute` -/
+def route (retries : Nat) : List Ev → RouteSt → RouteOut
+  | [], st => if st.i ≥ retries then ⟨.ret st.retryErr, st⟩ else ⟨.running, st⟩
+  | ev :: rest, st =>
+    if st.i ≥ retries then ⟨.ret st.retryErr, st⟩ else
+    match routeIter ev st with
+    | .cont st' => route retries rest st'
+    | .done err st' => ⟨.ret err, st'⟩
+
+/-- a call that starts with the given cache state -/
+def routeFrom (retries : Nat) (cache : Cache) (evs : List Ev) : RouteOut := route retries evs { cache := cache }
+
+/-- the fan-out sees a shard as having answered iff the routed call returned nil -/
+def routedUp (retries : Nat) (cache : Cache) (evs : List Ev) : Bool := (routeFrom retries cache evs).res == .ret none
+
 end Sema.C17
